@@ -9,7 +9,7 @@ from props.c16 import _Desc
 
 LEVEL = "proof"
 MANIFEST = dict(
-    text="Lean 4 theorems for all block contents, all (start, length), all event streams of genuine segments (lost / duplicated / re-ordered / delayed across  Session 4: the same fault streams also run through the real engine loop (_thread_func, one iteration at a time) on a socket whose buffer holds whole bursts of datagrams (every segment doubled on every single-segment range): same outcome as the datagram-by-datagram run, property read directly."
+    text="Lean 4 theorems for all block contents, all (start, length), all event streams of genuine segments (lost / duplicated / re-ordered / delayed across  Session 4: the same fault streams also run through the real engine loop (_thread_func, one iteration at a time) on a socket whose buffer holds whole bursts of datagrams (every segment doubled on every single-segment range): same outcome as the datagram-by-datagram run, property read directly. Also histories on ONE long-lived awaitable structure (transfers interleaved with partial-update patches, wholesale loads and overlapping transfers) and async_get_keeps_no_state_between_transfers / threaded_assembler_state_inventory over the regenerated skeletons."
          "attempts) and timeouts, by induction with the assembly invariant 'collected = a prefix of the chain': the async GeckoAsyncStructure.get and the "
          "threaded GeckoStructure assembler either install exactly the spa's bytes (installed_bytes: every requested byte equals the spa's, every other byte "
          "unchanged, size unchanged) or leave the client block untouched, and send at most retry / 1+budget requests; on a fault-free network the transfer "
@@ -162,6 +162,94 @@ def run_async(spa, cli, start, length, retry, tokens, chain):
         out["ok"], out["block"], out["sends"] = ok, st.status_block, len(tr.sent)
     vloop.run_virtual(body)
     return out
+
+
+def run_async_history(steps, blocks, cli):
+    """a HISTORY on ONE long-lived GeckoAsyncStructure (as the connection keeps it): fault-free transfers of ranges (the spa
+    presenting one of `blocks`), interleaved with the other writers of the client copy - a partial update patching bytes, a
+    wholesale set_status_block.  steps: ("get", start, length, k) | ("patch", pos, data) | ("load", k).  Returns per step
+    (ok, block after)"""
+    from geckolib.driver.async_spastruct import GeckoAsyncStructure
+    from geckolib.driver.async_udp_protocol import GeckoAsyncUdpProtocol
+    from geckolib.driver.protocol.statusblock import GeckoStatusBlockProtocolHandler
+    out = []
+    chains = {}
+    for st_ in steps:
+        if st_[0] == "get":
+            chains[st_[1:]] = real_chain(blocks[st_[3]], st_[1], st_[2])
+
+    async def body(loop):
+        proto = GeckoAsyncUdpProtocol(None, _Desc.destination)
+        tr = vloop.FakeTransport(loop, proto)
+        proto.connection_made(tr)
+
+        async def noop(*a):
+            pass
+        st = GeckoAsyncStructure(lambda *a: None, noop)
+        st.set_status_block(cli)
+        seq = [0]
+        for step in steps:
+            if step[0] == "patch":
+                st.replace_status_block_segment(step[1], step[2])
+                out.append(("patched", st.status_block))
+                continue
+            if step[0] == "load":
+                st.set_status_block(blocks[step[1]])
+                out.append(("loaded", st.status_block))
+                continue
+            _, start, length, k = step
+            chain = chains[(start, length, k)]
+            n0 = len(tr.sent)
+
+            async def feeder():
+                while len(tr.sent) == n0:
+                    await asyncio.sleep(0.01)
+                for seg in chain:
+                    proto.datagram_received(seg[3], SENDER)
+                    while proto.queue.qsize():
+                        await asyncio.sleep(0.05)
+            ft = asyncio.ensure_future(feeder())
+
+            def mk():
+                seq[0] += 1
+                return GeckoStatusBlockProtocolHandler.request(seq[0] % 190 + 1, start, length, parms=SENDER)
+            try:
+                ok = await st.get(proto, mk, 2)
+            except Exception as e:  # noqa
+                ok = f"raised {type(e).__name__}: {e}"
+            ft.cancel()
+            out.append((ok, st.status_block))
+    vloop.run_virtual(body)
+    return out
+
+
+def gen_async_history(rng):
+    """histories aimed at state that outlives a transfer: the same range fetched again after the client copy was written by somebody
+    else (a partial update, a wholesale load, a transfer of an overlapping range) while the spa presents the same bytes as before"""
+    R = rng.choice([(256, 300), (0, 1024), (100, 117), (256, 39), (0, 78)])
+    sub = (R[0] + rng.randrange(0, max(1, R[1] - 40)), rng.choice([2, 39, 40]))
+    sub = (sub[0], min(sub[1], R[0] + R[1] - sub[0]))
+    pos = R[0] + rng.randrange(R[1] - 1)
+    kind = rng.choice(["patch-between", "load-between", "overlap-between", "idle-repeat", "random"])
+    if kind == "patch-between":
+        steps = [("get",) + R + (0,), ("patch", pos, bytes([rng.randrange(256), rng.randrange(256)])), ("get",) + R + (0,)]
+    elif kind == "load-between":
+        steps = [("get",) + R + (0,), ("load", 1), ("get",) + R + (0,)]
+    elif kind == "overlap-between":
+        steps = [("get",) + R + (0,), ("get",) + sub + (1,), ("get",) + R + (0,)]
+    elif kind == "idle-repeat":
+        steps = [("get",) + R + (0,), ("get",) + R + (0,), ("get",) + R + (1,), ("get",) + R + (1,)]
+    else:
+        steps = []
+        for _ in range(rng.randint(3, 7)):
+            c = rng.random()
+            if c < 0.55:
+                steps.append(("get",) + rng.choice([R, sub]) + (rng.randrange(2),))
+            elif c < 0.85:
+                steps.append(("patch", R[0] + rng.randrange(R[1] - 1), bytes([rng.randrange(256), rng.randrange(256)])))
+            else:
+                steps.append(("load", rng.randrange(2)))
+    return kind, steps
 
 
 class Clock:
@@ -364,7 +452,7 @@ def oracle(ctx, cls, res, spa, cli, start, length, bound, inp):
 
 
 def run(ctx):
-    st = translate.run(["SimChain", "TransferConsts", "ThreadedFacts"])
+    st = translate.run(["SimChain", "TransferConsts", "ThreadedFacts", "Skeletons"])
     ctx.cov["translator"] = st
     for k, v in st.items():
         if v != "ok":
@@ -501,6 +589,43 @@ def run(ctx):
                           f"ok={re_['ok']} checksum={checksum(re_['block'])} len={len(re_['block'])}")
         ctx.count("evaluations")
         ctx.hist("engine_bursts", "doubled:" + ("single-segment" if len(ch) == 1 else "multi-segment"))
+    # ---- 2d. histories on ONE long-lived awaitable structure: transfers interleaved with the other writers of the client copy
+    spa_b = bytearray(spa)
+    for _ in range(40):
+        spa_b[rng.randrange(1024)] ^= rng.randrange(1, 256)
+    blocks = [spa, bytes(spa_b)]
+    for _ in range(25 if ctx.quick else 400):
+        kind, steps = gen_async_history(rng)
+        try:
+            res = run_async_history(steps, blocks, cli)
+        except Exception as e:  # noqa
+            ctx.violation("async-history:raised", {"kind": kind, "steps": [list(map(lambda x: x.hex() if isinstance(x, bytes) else x, st_)) for st_ in steps]},
+                          "the history runs", f"{type(e).__name__}: {e}")
+            continue
+        ctx.count("evaluations")
+        ctx.hist("async_histories", kind)
+        ref = bytes(cli)
+        for j, (step, (ok, blk)) in enumerate(zip(steps, res)):
+            if step[0] == "patch":
+                ref = ref[:step[1]] + step[2] + ref[step[1] + len(step[2]):]
+            elif step[0] == "load":
+                ref = blocks[step[1]]
+            else:
+                _, s0_, ln_, k_ = step
+                if ok is True:
+                    ref = ref[:s0_] + blocks[k_][s0_:s0_ + ln_] + ref[s0_ + ln_:]
+                    # (the simulator's last slice may run past the requested length and the client installs what it was sent: bytes
+                    #  after the range may ALSO have become the spa's current bytes - never anything else)
+                    if len(blk) == len(ref):
+                        ref = bytes(b if (b == r or b == blocks[k_][i]) else r for i, (b, r) in enumerate(zip(blk, ref)))
+            if blk != ref or (step[0] == "get" and ok is not True):
+                bad = [i for i in range(min(len(blk), len(ref))) if blk[i] != ref[i]][:6]
+                ctx.violation(f"async-history:{'not-installed' if step[0] == 'get' else 'other-writer'}:{kind}",
+                              {"kind": "async-history", "history": kind, "spa": "seeded", "cli_hex": cli.hex(), "blocks_hex": [b.hex() for b in blocks],
+                               "steps": [[x.hex() if isinstance(x, bytes) else x for x in st_] for st_ in steps[:j + 1]]},
+                              "after a fault-free transfer every requested byte equals the spa's and no other byte changed (whatever happened to the client copy before)",
+                              {"step": j, "result": str(ok)[:60], "first_differing_positions": bad, "len": len(blk)})
+                break
     # ---- 3. histories of transfers on one threaded structure (the assembly state lives on the structure)
     multi = [p for p in todo if len(chains[p]) >= 2]
     for _ in range(40 if ctx.quick else 600):
@@ -557,6 +682,23 @@ def replay(inp):
     cli = bytes(rng.randrange(256) for _ in range(1024))
     if inp.get("spa_hex"):
         spa, cli = bytes.fromhex(inp["spa_hex"]), bytes.fromhex(inp["cli_hex"])
+    if inp.get("kind") == "async-history":
+        blocks = [bytes.fromhex(b) for b in inp["blocks_hex"]]
+        cli = bytes.fromhex(inp["cli_hex"])
+        steps = [tuple(bytes.fromhex(x) if isinstance(x, str) and i == 2 and st_[0] == "patch" else x for i, x in enumerate(st_)) for st_ in inp["steps"]]
+        res = run_async_history(steps, blocks, cli)
+        ok, blk = res[-1]
+        last = steps[-1]
+        if last[0] == "get":
+            bad = ok is not True or blk[last[1]:last[1] + last[2]] != blocks[last[3]][last[1]:last[1] + last[2]]
+            return bad, {"result": str(ok)[:60], "requested_bytes_equal_the_spas": not bad}
+        return False, "last step is not a transfer"
+    if inp.get("client") == "threaded-engine":
+        ch = real_chain(spa, inp["start"], inp["len"])
+        bs = [b if b == "t" else b.split(",") for b in inp["bursts"]]
+        res = run_sync_engine(spa, cli, inp["start"], inp["len"], inp["retry"], bs, ch)
+        oracle(ctx, "threaded-engine", res, spa, cli, inp["start"], inp["len"], 1 + inp["retry"], inp)
+        return bool(ctx.violations), ctx.violations[0]["observed"] if ctx.violations else f"ok={res['ok']} sends={res['sends']}"
     if inp.get("client") == "threaded-history":
         hs = inp["history"]
         chains = {(h["start"], h["len"]): real_chain(spa, h["start"], h["len"]) for h in hs}
